@@ -65,6 +65,10 @@ func (mt *MemTopics) Subscribe(topic []byte, qos byte, sub interface{}) (byte, e
 		return message.QosFailure, fmt.Errorf("Subscriber cannot be nil")
 	}
 
+	if len(topic) == 0 {
+		return message.QosFailure, fmt.Errorf("Topic filter cannot be empty")
+	}
+
 	mt.smu.Lock()
 	defer mt.smu.Unlock()
 
